@@ -495,6 +495,10 @@ def model (op : String) (args : List String) : String :=
     | some (ty, sp, src, cs) =>
       match Addr.findConf ty src cs sp with | some i => toString i | none => "none"
     | none => "bad-op"
+  | "connstate", [_, st, _] =>
+    match st.toNat? with
+    | some st => s!"st={Choose.connectStart st} ret=0"
+    | none => "bad-op"
   | "addreq", [_, a, pa, b, pb] =>
     match ofHex a, pa.toNat?, ofHex b, pb.toNat? with
     | some a, some pa, some b, some pb => if Addr.addrEqual a pa b pb then "1" else "0"
@@ -580,6 +584,12 @@ def spec (op : String) (args impl : List String) : String :=
     | some a, some b, some len =>
       if (Spec.leadingBitsEq a b len) == (r == "1") && (r == "1" || r == "0") then "ok" else "bad prefix-bits"
     | _, _, _ => "bad-op"
+  | "connstate", [_, st, _], [r, _] =>
+    match st.toNat? with
+    | some st =>
+      -- C09: a starting server (blocking or not) is still a starting server while it connects; only a connected one "reconnects"
+      if r = s!"st={if st = 2 then 3 else st}" then "ok" else "bad C09:connection-attempt-changed-the-eligibility-of-a-starting-server"
+    | none => "bad-op"
   | "addreq", [_, a, pa, b, pb], [r] =>
     match ofHex a, pa.toNat?, ofHex b, pb.toNat? with
     | some a, some pa, some b, some pb =>
